@@ -150,6 +150,15 @@ async def tls_case(part, r, key):
     from proxyprotocol.reader import ProxyProtocolReader
     from proxyprotocol.version import ProxyProtocolVersion
     which = r.choice(['imap', 'imap', 'sieve'])
+    try:
+        probe = socket.socket()
+        probe.bind(('127.0.0.1', 0))
+        probe.close()
+        server_ctx()
+    except (OSError, ssl.SSLError) as exc:
+        # no loopback interface or no key pair: this leg cannot run here (everything else in C09 still does); said in the evidence, not an alarm
+        part.stat('tls-leg-unavailable:' + type(exc).__name__)
+        return
     split = r.random() < 0.35
     loop = asyncio.get_running_loop()
     loop.set_exception_handler(lambda lp, context: None)      # a handshake that fails on purpose is not news
